@@ -277,6 +277,11 @@ def shape_E(rng):
 
 
 HAND = [
+    # coordinator's witnesses of two seeded bugs the first generator missed:
+    # (y^2 - x0)^2 (y^2 - x1) at x0 = x1 = 1: the square-free factors share the TWO roots -1, 1
+    "iso 0,1,2 1*x2^6+-1*x1^1*x2^4+-2*x0^1*x2^4+2*x0^1*x1^1*x2^2+1*x0^2*x2^2+-1*x0^2*x1^1 2 0 z:1 1 z:1",
+    # y^2 + x y + x^2 at x = cbrt 2: no real root, the eliminant (y^3-2)^2 has exactly one real candidate
+    "iso 0,1 1*x1^2+1*x0^1*x1^1+1*x0^2 1 0 r:-2,0,0,1:0",
     # eliminant vanishes identically and so does the specialisation: y*(x^2-2) at sqrt2
     "iso 0,1 1*x0^2*x1^1+-2*x1^1 1 0 r:-2,0,1:1",
     # eliminant vanishes (conjugate sqrt3 of the reducible defining polynomial), the specialisation does not
@@ -305,6 +310,143 @@ HAND = [
     # y is the lowest index, order permuted
     "iso 2,1,0 1*x0^2+-1*x1^1*x2^1 2 1 z:2 2 r:-2,0,1:1",
 ]
+
+
+# ------------------------------------------------------------------ shape D: roots shared between square-free factors
+def shape_D(rng):
+    """A = prod (y - b_i)^m1 * prod (y - b_i')^m2 [* (y - c)^m3] with b_i = b_i' UNDER THE ASSIGNMENT ONLY (different
+    polynomials) and m1 != m2: the square-free factorisation returns factors of different multiplicity whose root
+    lists share TWO OR THREE distinct roots, so the duplicate removal must drop several duplicates (a removal that
+    compares with the array predecessor, or moves the kept roots by swapping, only survives one)."""
+    kind = rng.choice(["int", "int", "sqrt2", "twin", "twin"])
+    idx = rng.sample(range(6), 3)
+    y = idx[2]
+    Y = pvar(y)
+    if kind == "int":
+        xs = [idx[0]]
+        v = rng.choice([-2, -1, 1, 2, 3])
+        assign = [(idx[0], "z:%d" % v)]
+        X = pvar(idx[0])
+        pairs = [(X, pconst(v)), (pmul(X, X), pconst(v * v)), (padd(X, pconst(1)), pconst(v + 1)),
+                 (pscale(2, X), pconst(2 * v)), (pscale(-1, X), pconst(-v)), (psub(pmul(X, X), X), pconst(v * v - v))]
+    elif kind == "sqrt2":
+        xs = [idx[0]]
+        assign = [(idx[0], rng.choice([SQRT2, "r:-2,0,1:0", "a:6,0,-5,0,1:5/2:3/1"]))]
+        X = pvar(idx[0])
+        X2 = pmul(X, X)
+        # rational and IRRATIONAL shared roots: x^2 = 2, x^3 = 2x, x^4 = 4, x^2 + x = x + 2, x^3 - x = x
+        pairs = [(X2, pconst(2)), (pmul(X2, X), pscale(2, X)), (pmul(X2, X2), pconst(4)),
+                 (padd(X2, X), padd(X, pconst(2))), (psub(pmul(X2, X), X), X), (psub(X2, pconst(2)), pconst(0))]
+    else:
+        # two parameters that are equal under the assignment only (also one number in two representations)
+        xs = [idx[0], idx[1]]
+        t = rng.choice(["z:2", "z:-1", "q:1/3", SQRT2, "r:-3,0,1:1", "r:-1,-1,1:1"])
+        t2 = "a:6,0,-5,0,1:5/2:3/1" if (t == SQRT2 and rng.random() < 0.5) else t
+        assign = [(idx[0], t), (idx[1], t2)]
+        X, Z = pvar(idx[0]), pvar(idx[1])
+        pairs = [(X, Z), (padd(X, pconst(1)), padd(Z, pconst(1))), (pscale(-1, X), pscale(-1, Z)), (pscale(2, X), padd(X, Z)),
+                 (pmul(X, X), pmul(X, Z)), (pconst(0), psub(X, Z))]
+    k = rng.choice([2, 2, 3])
+    chosen = rng.sample(pairs, k)
+    m1, m2 = rng.choice([(1, 2), (2, 1), (1, 3), (1, 2)])
+    if k == 3:
+        m1, m2 = rng.choice([(1, 2), (2, 1)])
+    extra = ["lc=1"]
+    A = pconst(1)
+    first, second = [], []
+    for (b, b2) in chosen:
+        if rng.random() < 0.5:
+            b, b2 = b2, b
+        first.append(b)
+        second.append(b2)
+    # sometimes only k-1 of the roots are really shared (the last second-copy is shifted)
+    if rng.random() < 0.2:
+        second[-1] = padd(second[-1], pconst(1))
+    for b in first:
+        for _ in range(m1):
+            extra.append("lin=1;%s" % ptext(b))
+            A = pmul(A, psub(Y, b))
+    for b in second:
+        for _ in range(m2):
+            extra.append("lin=1;%s" % ptext(b))
+            A = pmul(A, psub(Y, b))
+    if rng.random() < 0.3 and k == 2 and m1 + m2 <= 3:
+        c = rng.choice([pconst(rng.choice([-3, 0, 5])), first[0]])
+        for _ in range(3 if (m1 + m2 == 3 and rng.random() < 0.5) else 1):
+            extra.append("lin=1;%s" % ptext(c))
+            A = pmul(A, psub(Y, c))
+    order = xs[:]
+    rng.shuffle(order)
+    return mk_case("iso", order + [y], A, assign, extra + ["cls=D"]), "D"
+
+
+# ------------------------------------------------------------------ shape N: no real root, but the eliminant has some
+ROOT3 = ["r:-2,0,0,1:0", "r:-3,0,0,1:0", "r:2,0,0,1:0", "r:-5,0,0,1:0"]          # cube roots of 2, 3, -2, 5
+ROOT4 = ["r:-2,0,0,0,1:1", "r:-2,0,0,0,1:0", "r:-3,0,0,0,1:1"]                 # +-2^(1/4), 3^(1/4)
+
+
+def shape_N(rng):
+    """norm-form polynomials, positive definite in y at the real parameter alpha, whose eliminant
+    prod_conjugates A(alpha', y) nevertheless has real roots - they come from the COMPLEX conjugates of alpha:
+      y^2 + x y + x^2      at x = cbrt(d): eliminant (y^3 - d)^2, ONE real candidate, not a root
+      y^2 - x y + x^2      at x = cbrt(d): candidate -cbrt(d)
+      y^2 + 2 x y + 4 x^2  at x = cbrt(d): candidate 2 cbrt(d)
+      y^2 + x^2            at x = d^(1/4): eliminant (y^4 - d)^2, TWO real candidates, none a root
+    optionally shifted (y -> y - c), scaled, or multiplied by a linear factor (y - x), (y + x), (y - c) so that
+    of one / two candidates exactly one survives.  A filter that trusts a single candidate, or any candidate, fails."""
+    idx = rng.sample(range(6), 3)
+    x, y = idx[0], idx[2]
+    X, Y = pvar(x), pvar(y)
+    c = rng.choice([0, 0, 0, 1, -2])
+    Yc = psub(Y, pconst(c))
+    if rng.random() < 0.65:
+        t = rng.choice(ROOT3)
+        q = rng.choice([
+            padd(pmul(Yc, Yc), padd(pmul(X, Yc), pmul(X, X))),
+            padd(pmul(Yc, Yc), padd(pscale(-1, pmul(X, Yc)), pmul(X, X))),
+            padd(pmul(Yc, Yc), padd(pscale(2, pmul(X, Yc)), pscale(4, pmul(X, X)))),
+            padd(pscale(4, pmul(Yc, Yc)), padd(pscale(2, pmul(X, Yc)), pmul(X, X))),
+        ])
+    else:
+        t = rng.choice(ROOT4)
+        q = rng.choice([
+            padd(pmul(Yc, Yc), pmul(X, X)),
+            padd(pmul(Yc, Yc), pscale(4, pmul(X, X))),
+            padd(pscale(2, pmul(Yc, Yc)), pmul(pmul(X, X), pmul(X, X))),      # 2 y^2 + x^4: x^4 = d, constant: no candidate
+        ])
+    assign = [(x, t)]
+    order = [x]
+    extra = ["lc=%d" % 1, "quad=" + ptext(q)]
+    A = q
+    k = rng.random()
+    if k < 0.2:
+        lf = rng.choice([X, pscale(-1, X), pconst(c), padd(X, pconst(c))])
+        extra.append("lin=1;%s" % ptext(lf))
+        A = pmul(A, psub(Y, lf))
+    elif k < 0.3:
+        sc = rng.choice([-1, 2, 3])
+        extra[0] = "lc=%d" % sc
+        A = pscale(sc, A)
+    elif k < 0.4:
+        # a second, rationally assigned parameter as a positive weight: y^2 + w x y + w^2 x^2 keeps the form
+        w = idx[1]
+        W = pvar(w)
+        A = padd(pmul(Yc, Yc), padd(pmul(pmul(W, X), Yc), pmul(pmul(W, W), pmul(X, X)))) if t in ROOT3 else padd(pmul(Yc, Yc), pmul(pmul(W, W), pmul(X, X)))
+        assign.append((w, rng.choice(["z:1", "z:2", "z:-1", "q:1/3"])))
+        order = [x, w]
+        rng.shuffle(order)
+        extra = []
+    return mk_case("iso", order + [y], A, assign, extra + ["cls=N"]), "N"
+
+
+def small_enough_D(case):
+    main = case.split(" | ")[0].split()
+    terms = main[2].split("+")
+    alg = any(main[5 + 2 * i][0] in "ra" for i in range(int(main[3])))
+    y = main[1].split(",")[-1]
+    dy = max([int(f[1:].split("^")[1]) for t in terms for f in t.split("*")[1:] if f[1:].split("^")[0] == y] + [0])
+    return len(terms) <= (45 if alg else 70) and dy <= (7 if alg else 10)
+
 
 
 def small_enough(case):
@@ -363,8 +505,19 @@ def gen_cases(rng, n, op="iso", light=False):
     LIGHT[0] = light
     try:
         while len(cases) < n:
-            c, _ = (shape_S if rng.random() < 0.55 else shape_E)(rng)
-            if small_enough(c) and not (light and heavy_for_sweep(c)):
+            k = rng.random()
+            if k < 0.10:
+                c, _ = shape_D(rng)
+                ok = small_enough_D(c) and not light
+                if light:
+                    continue
+            elif k < 0.20 and not light:
+                c, _ = shape_N(rng)
+                ok = True
+            else:
+                c, _ = (shape_S if rng.random() < 0.55 else shape_E)(rng)
+                ok = small_enough(c) and not (light and heavy_for_sweep(c))
+            if ok:
                 cases.append(op.strip() + c[3:])
     finally:
         LIGHT[0] = False
@@ -387,7 +540,11 @@ def tag(case):
     main = _parts(case)
     toks = main[4:]
     nalg = sum(1 for t in toks[1::2] if t[0] in "ra")
-    kind = "S" if " | " in case else "E"
+    kind = "S" if (" lc=" in case or " lin=" in case or " quad=" in case) else "E"
+    if " cls=D" in case:
+        kind = "D"
+    if " cls=N" in case:
+        kind = "N"
     return "%s-%s-alg%d" % (main[0], kind, nalg)
 
 
